@@ -67,6 +67,32 @@ func init() {
 		checkRoundTrip(t, po.Prog, norm.S(po.Prog), "large/"+kind, func() string { return fmt.Sprintf("large program %s(%d)", kind, n) })
 		t.Distinct(fmt.Sprint(kind, n))
 	})
+	// the same programs assembled from ast nodes directly (no parser involved before the print): what the printers emit
+	// for thousands of empty calls, wide lists and deep nesting parses back to the tree it was printed from
+	{
+		p := fw.Lookup("C03")
+		p.Strata = append(p.Strata, &fw.Stratum{Name: "large-assembled-programs", Quick: quick, Thorough: thorough, Run: func(t *fw.T) {
+			prog, kind, n := bigCase(t)
+			if kind == "long-string" || kind == "long-template" {
+				// the assembler hands the literal's source spelling to the node; for lexemes with escapes that is not what the
+				// lexer would have stored (the literal strata of C03 assemble those with the lexer's help)
+				t.Count("large_programs_not_assembled", 1)
+				return
+			}
+			var asm *ast.Program
+			func() {
+				defer func() { recover() }() // node kinds the assembler does not build
+				asm = toProgram(prog)
+			}()
+			if asm == nil {
+				t.Count("large_programs_not_assembled", 1)
+				return
+			}
+			t.Count("large_programs_assembled", 1)
+			checkRoundTrip(t, asm, prog.S(), "large-assembled/"+kind, func() string { return fmt.Sprintf("large assembled program %s(%d)", kind, n) })
+			t.Distinct(fmt.Sprint("asm", kind, n))
+		}})
+	}
 	add("C06", func(t *fw.T) {
 		prog, kind, n := bigCase(t)
 		limitCfgs = true
